@@ -25,6 +25,19 @@ def totalFailure (h : WinRes) : Prop := h.accepts = 0 âˆ§ h.workingBuckets = 0 â
 
 instance (h : WinRes) : Decidable (totalFailure h) := by unfold totalFailure; exact inferInstance
 
+/-! ### the window of the property, from the calls themselves
+
+The monitor keeps its own log of what every call *should* have recorded (rejected: drop; admitted: success or
+failure by the acceptability predicate) stamped with the aligned 250 ms bucket index of the call time, and
+counts "the calls recorded in the preceding 10 s window" from that log: the current bucket and the 39 before. -/
+
+def bucketIdx (t0 t : Nat) : Nat := (t - t0) / intervalNs
+
+def inWindow (cur idx : Nat) : Bool := idx â‰¤ cur âˆ§ cur < idx + nBuckets
+
+def logTotals (log : List (Nat Ã— Mark)) (cur : Nat) : Bucket :=
+  (log.filter fun e => inWindow cur e.1).foldl (fun b e => b.add e.2) {}
+
 /-- what one call did, as far as the property talks about it -/
 structure CallObs where
   reqRuns  : Nat
